@@ -234,11 +234,12 @@ def as_json_text(config: str | dict) -> str:
 
 
 def _parse_existing_config(content: str, output: str) -> dict:
-    """Parse existing config file content as YAML."""
+    """Parse existing config file content (JSON for a *.json file, YAML otherwise)."""
+    is_json = Path(output).suffix.lower() == ".json"
     try:
-        return yaml.safe_load(content) or {}
-    except yaml.YAMLError:
-        click.echo(f"Error: Could not parse {output} as YAML", err=True)
+        return (json.loads(content) if is_json else yaml.safe_load(content)) or {}
+    except (yaml.YAMLError, ValueError):
+        click.echo(f"Error: Could not parse {output} as {'JSON' if is_json else 'YAML'}", err=True)
         click.echo("Use --force to overwrite with a fresh config", err=True)
         sys.exit(1)
 
